@@ -74,8 +74,15 @@ _ENC = "hippolyzer.lib.base.message.udpserializer:UDPMessageSerializer.zero_code
 _DEC = "hippolyzer.lib.base.message.udpdeserializer:UDPMessageDeserializer.zero_code_expand"
 
 # enc_step(data, z0, final) -> (emitted, z1);  dec_step(buf, in_zero0, out0, final) -> (out, in_zero1, out)
-enc_step = parameterize(compress, ["zero_count"])
-dec_step = parameterize(expand, ["in_zero", "decode_buf"])
+SHAPE_PROBLEM = None
+try:
+    enc_step = parameterize(compress, ["zero_count"])
+    dec_step = parameterize(expand, ["in_zero", "decode_buf"])
+except Exception as _e:      # vlib.loopstate.ShapeChanged: the loops are no longer left folds over the input with this state
+    # The inductive lemmas are regenerated from the live loop bodies; when the code is restructured they cannot be.
+    # The lemmas are then reported as inconclusive (obligations() below) and only the whole-function obligations decide.
+    SHAPE_PROBLEM = repr(_e)
+    enc_step = dec_step = None
 
 
 def owed(z: int) -> int:
@@ -175,9 +182,94 @@ def L6b_refuses_over_cap(n: int, in_zero: bool, c: int) -> bool:
     return False
 
 
+# ---------------------------------------------------------------------------------------
+# Whole-function obligations on long runs (independent of how the loops are written)
+# ---------------------------------------------------------------------------------------
+def _untraced(fn):
+    import sys
+    if "crosshair.tracers" in sys.modules:
+        from crosshair.tracers import NoTracing, is_tracing
+        if is_tracing():
+            with NoTracing():
+                return fn()
+    return fn()
+
+
+def small(x, lo, hi):
+    for v in range(lo, hi + 1):
+        if x == v:
+            return v
+    raise AssertionError("selector out of range")
+
+
+_LITS = [b"", b"\x01", b"\xff", b"\x00"]
+
+
+@harness(pre=["(0 <= n) & (n <= 520)", "0 <= m <= 2", "(0 <= a) & (a <= 3)"], post="_", timeout=600,
+         note="whole functions on long zero runs: lit_a + 0^n + lit_b + 0^m' + lit_a for EVERY n in 0..520 (so every wrap "
+              "boundary 255, 256, 510, 511), m' in {0, 255, 256}, 4 literal pairs from {none, 01, ff, 00} (all solver-chosen; the loops "
+              "run outside the tracer on the chosen input): expand(compress(d)) == d, the encoding is canonical, never "
+              "longer than 2 x input and the reference decoder agrees", covers=(_ENC, _DEC))
+def long_runs_roundtrip(n: int, m: int, a: int) -> bool:
+    n = small(n, 0, 520)
+    m2 = [0, 255, 256][small(m, 0, 2)]
+    a = small(a, 0, 3)
+    la, lb = _LITS[a], _LITS[(a + 1) % 4]
+
+    def go():
+        d = la + b"\x00" * n + lb + b"\x00" * m2 + la
+        enc = bytes(compress(d))
+        return bytes(expand(enc)) == d and canonical(enc) and len(enc) <= 2 * len(d) and ref_expand(enc) == d
+    return _untraced(go)
+
+
+@harness(pre=["(0 <= k) & (k <= 60)", "(0 <= ci) & (ci <= 4)", "(0 <= lead) & (lead <= 2)"], post="_", timeout=600,
+         note="decoder allocation bound on whole inputs: `lead` literal bytes, then a zero marker followed by k wrap "
+              "continuations (00 00^k) and a count byte c in {1, 2, 128, 254, 255}, then one more literal or the end of the input (k in 0..60, solver-chosen): the "
+              "decoder either returns exactly what the reference semantics give, never more than 0x3000+256+255 bytes, or "
+              "refuses with ValueError; it must refuse whenever the reference expansion exceeds 0x3000+256+255 bytes",
+         covers=(_DEC,))
+def cap_whole(k: int, ci: int, lead: int, tail: bool) -> bool:
+    k, c, lead = small(k, 0, 60), [1, 2, 128, 254, 255][small(ci, 0, 4)], small(lead, 0, 2)
+    tail = True if tail else False
+
+    def go():
+        data = b"\x07" * lead + b"\x00" + b"\x00" * k + bytes([c]) + (b"\x09" if tail else b"")
+        want = ref_expand(data)
+        limit = 0x3000 + 256 + 255
+        try:
+            got = bytes(expand(data))
+        except ValueError:
+            return len(want) > 0x3000          # refusing is only legitimate for expansions beyond the cap
+        return got == want and len(got) <= limit
+    return _untraced(go)
+
+
+from vlib.harness import shard  # noqa: E402
+shard(long_runs_roundtrip, "m", range(3), ["tail0", "tail255", "tail256"], globals())
+
+
+def obligations(tier, seed):
+    from vlib.main import default_obligations, Ob
+    obs = default_obligations("harness.c03", tier)
+    if SHAPE_PROBLEM is None:
+        return obs
+    kept = [o for o in obs if not o.name.startswith("L")]
+    kept.append(Ob(name="loop_shape", module="harness.c03", func="loop_shape_status", kind="call", timeout=10, covers=(_ENC, _DEC),
+                   note="the one-step lemmas (L12, L3, L4, L5, L6a, L6b) are regenerated from the live loop bodies; the loops "
+                        "no longer have the shape the rewriting understands, so the lemmas are INCONCLUSIVE and only the "
+                        "whole-function obligations were decided", args={}))
+    return kept
+
+
+def loop_shape_status(exclude=()):
+    return {"status": "unknown", "queries": 0, "detail": f"loop shape changed: {SHAPE_PROBLEM}"}
+
+
 EVIDENCE = {
     "bounds": "step lemmas: every encoder state z in [0,254] x every byte, every decoder state x every byte, every "
-              "buffer length (unbounded int); whole-function obligations: every byte string of length <= 5 (quick)",
+              "buffer length (unbounded int); whole-function obligations: every byte string of length <= 5, every zero run "
+              "length 0..520 between catalogue literals, every wrap-continuation count 0..60 x count byte against the cap",
     "explanation": "Induction on len(d): the relation R(z,in_zero,dec) := in_zero=(z>0) and dec+0^owed(z)=consumed input "
                    "holds initially (z=0, dec=''), is preserved by every step (L3, with L1 keeping z in the lemma's domain) "
                    "and gives dec=d after the finaliser (L4); so expand(compress(d))==d for every d whose expansion stays "
